@@ -328,34 +328,38 @@ theorem flush_k (k : Kcp) (full : Bool) (now : U32) :
 
 /-! ### `Input`, staged -/
 
+/-- the part of the loop body common to all commands: remote window, `parse_una`, `shrink_buf` -/
+def inSt1 (regular : Bool) (wnd : BitVec 16) (una : U32) (st : InLoop) : InLoop :=
+  let k1 := if regular then { st.k with rmt_wnd := wnd.setWidth 32 } else st.k
+  let pu := parseUna k1 una
+  { st with k := shrinkBuf pu.1, flushSeg := st.flushSeg || decide (pu.2 > 0) }
+
+/-- IKCP_CMD_ACK -/
+def inAck (st1 : InLoop) (sn ts : U32) : InLoop :=
+  let k2 := parseAck st1.k sn
+  let pf := parseFastack k2 sn ts
+  { st1 with k := pf.1, flushSeg := st1.flushSeg || pf.2, updRtt := true, latest := ts }
+
+/-- IKCP_CMD_PUSH -/
+def inPush (st1 : InLoop) (seg : Seg) : InLoop :=
+  if itimediff seg.sn (st1.k.rcv_nxt + st1.k.rcv_wnd) < 0 then
+    let k2 := { st1.k with acklist := st1.k.acklist ++ [⟨seg.sn, seg.ts⟩] }
+    if itimediff seg.sn k2.rcv_nxt ≥ 0 then
+      let r := parseData k2 seg
+      { st1 with k := r.k, panic := r.panic }
+    else { st1 with k := k2 }
+  else st1
+
 /-- one accepted segment of the parse loop of `Input` (everything between the header checks and
 the recursive call) -/
 def inBody (regular : Bool) (data : Bytes) (st : InLoop) : InLoop :=
-  let conv := rd32 data 0
   let cmd := BitVec.ofNat 8 (byteAt data 4)
-  let frg := BitVec.ofNat 8 (byteAt data 5)
-  let wnd := rd16 data 6
-  let ts := rd32 data 8
-  let sn := rd32 data 12
-  let una := rd32 data 16
-  let length := (rd32 data 20).toNat
-  let body := data.drop IKCP_OVERHEAD
-  let k1 := if regular then { st.k with rmt_wnd := wnd.setWidth 32 } else st.k
-  let pu := parseUna k1 una
-  let st1 := { st with k := shrinkBuf pu.1, flushSeg := st.flushSeg || decide (pu.2 > 0) }
-  if cmd.toNat = IKCP_CMD_ACK then
-    let k2 := parseAck st1.k sn
-    let pf := parseFastack k2 sn ts
-    { st1 with k := pf.1, flushSeg := st1.flushSeg || pf.2, updRtt := true, latest := ts }
+  let st1 := inSt1 regular (rd16 data 6) (rd32 data 16) st
+  if cmd.toNat = IKCP_CMD_ACK then inAck st1 (rd32 data 12) (rd32 data 8)
   else if cmd.toNat = IKCP_CMD_PUSH then
-    if itimediff sn (st1.k.rcv_nxt + st1.k.rcv_wnd) < 0 then
-      let k2 := { st1.k with acklist := st1.k.acklist ++ [⟨sn, ts⟩] }
-      if itimediff sn k2.rcv_nxt ≥ 0 then
-        let r := parseData k2 { conv := conv, cmd := cmd, frg := frg, wnd := wnd, ts := ts, sn := sn, una := una,
-                                data := body.take length }
-        { st1 with k := r.k, panic := r.panic }
-      else { st1 with k := k2 }
-    else st1
+    inPush st1 { conv := rd32 data 0, cmd := cmd, frg := BitVec.ofNat 8 (byteAt data 5), wnd := rd16 data 6,
+                 ts := rd32 data 8, sn := rd32 data 12, una := rd32 data 16,
+                 data := (data.drop IKCP_OVERHEAD).take (rd32 data 20).toNat }
   else if cmd.toNat = IKCP_CMD_WASK then
     { st1 with k := { st1.k with probe := st1.k.probe ||| u32 IKCP_ASK_TELL } }
   else st1
